@@ -14,6 +14,7 @@ RULE = ("(1) SupervisedOPF on tie-free sets (Gaussian / extreme-scale data, all 
         "own label for every sample and predict(X_train) == Y_train. (2) KNNSupervisedOPF on arbitrary data (lattices, duplicates, ties), any "
         "max_k<=n-1, hostile validation labels: assigned label == own label. Non-trivial: (1) >=3 prototypes and a sample whose nearest "
         "neighbour has another label; (2) n>=5 with duplicates or ties or max_k>=2; distinct = case hash.")
+RULE += (' One designed tie-free set per run whose optimum path is ~1100 samples deep (class on a line, random decreasing gaps); 64-bit class identifiers (2^40+j) in 1.5% of the supervised cases.')
 ASSUMPTIONS = [
     "coincident samples with different labels are not tie-free (their zero distance ties the diagonal) and are rejected by the precondition",
     "KNN fits that abort with an exception are counted, not judged here (C16 owns k selection)",
